@@ -3,11 +3,14 @@ HOOKS = dict(
     guard="cfg(kani)",
     enable="cargo kani sets --cfg kani by itself; Verus units need no hook (functions are extracted from /repo/src on every run)",
     baseline_off_cmd="cd /repo && cargo test --workspace --no-fail-fast --offline",
-    source_commits=[],
+    source_commits=["9b2d413", "089481e", "f29fb54", "b91bd80"],
     add_only=True,
 )
 ENGINES = [
-    dict(name="verus-units", path="/verif/vk/verus_unit.py", serves_properties=["C01", "C02", "C03", "C10", "C13", "C15", "C19"],
+    dict(name="kani-harnesses", path="/verif/vk/kani_unit.py", serves_properties=["C01", "C02", "C08", "C09"],
+         kind_free_text="cargo kani on the real crate; harness files /verif/kani/*_proofs.rs are compiled into the defining modules through cfg(kani) hooks; "
+                        "loop-free full-domain harnesses are complete, harnesses with symbolic strings are bounded stand-ins and never counted as proved"),
+    dict(name="verus-units", path="/verif/vk/verus_unit.py", serves_properties=["C01", "C02", "C03", "C08", "C09", "C10", "C13", "C15", "C19"],
          kind_free_text="mechanical extraction of the real functions (vk/extract.py, rules R1-R8) + contracts/<unit>.vc, discharged by Verus 0.2026.09.13 / Z3; "
                         "every diagnostic is mapped back to a named obligation (function::label)"),
 ]
@@ -40,6 +43,26 @@ CHECKS = {
              "that key, every accepted remove exactly one removed record, a refused write none - proved for all states and arguments against an uninterpreted send log.",
         level_note="notify_watchers and the removed-loop are TRUSTED to append exactly one record (their try_send loops are not verified). Subscription windows, "
                    "watch/unwatch/disconnect races, delivery on full channels and 'ends up current' are NOT decided.",
+    ),
+    "C08": dict(
+        engine="verus-units+kani", design_ref="DESIGN.md §5 C08", technique="deductive verification (Verus/Z3) of guard contracts with closure preconditions; Kani/CBMC harness for the listing filter",
+        text="Unbounded proof of the guards: in apply_if_safe_access / apply_to_database_name_if_has_permission / has_permission the guarded operation (a closure) "
+             "carries a precondition that the caller contract provides only when the session may access the key - for a key starting with $$ that means an "
+             "administrator session - so Verus rejects any path that reaches the closure without the check; a non-administrator asking for a $$ key gets an "
+             "error whatever is stored; Database::remove_value refuses $$token for everybody and changes nothing. Bounded Kani harness: filter_system_keys hides "
+             "exactly the $$ prefix from non-admin listings.",
+        level_note="Dispatcher arms that bypass the guard (Resolve, Arbiter, rp) are NOT covered and the check does not claim noninterference for them. "
+                   "str::starts_with is a trusted prefix test. Sequential semantics. The Kani harness is bounded (3-byte keys) and is not counted as proved.",
+    ),
+    "C09": dict(
+        engine="verus-units+kani", design_ref="DESIGN.md §5 C09", technique="deductive verification (Verus/Z3) of guard contracts with closure preconditions; complete loop-free Kani harnesses",
+        text="Unbounded proof: apply_if_auth runs its operation only for an authenticated administrator session and otherwise answers with an error; "
+             "apply_if_safe_access / apply_to_database* answer with an error unless the session selected an existing database and (for keyed commands) the "
+             "permission decision allows the key and kind; has_permission: $$ keys admin only, a user without a permission list reaches no key, a token "
+             "session without an 'all' list has full access, otherwise the stored list decides; is_valid_token / is_valid_user_token equal the lookup of "
+             "$$token / $$user_<name>. Complete Kani harnesses: apply_if_auth (call counter), PermissionKind letters.",
+        level_note="The decision of a stored permission list (parse + pattern match) is an uninterpreted function (iterator pipelines are out of reach for both "
+                   "back ends). That every dispatcher arm uses the right guard, the use-db arm, and mid-session changes are NOT decided.",
     ),
     "C13": dict(
         engine="verus-units", design_ref="DESIGN.md §5 C13", technique="deductive verification (Verus/Z3) of function contracts on extracted real code",
@@ -83,8 +106,6 @@ NOT_APPLICABLE = {
     "C05": "Resynchronisation is a two-node protocol over sockets; the sync emitters build their lines inline while iterating HashMaps (Kani cannot, Verus has no string formatting), so even the encode/parse round trip of the sync line is out of reach.",
     "C06": "Snapshot/restore relates two runs through std::fs files written by one 110-line function with three buffered writers plus in-place write_at; deciding it needs a file-system model and a cross-snapshot offset invariant beyond what could be brought within Verus' reach; Kani has no file I/O and cannot build the map.",
     "C07": "Election outcome depends on timers, thread sleeps and message interleavings; election_eval's comparison is inseparable from the blocking start_election it calls.",
-    "C08": "contract not completed yet (in progress)",
-    "C09": "contract not completed yet (in progress)",
     "C11": "Crash points of a writer are not expressible as pre/postconditions of a call; neither verifier has a crash-consistent file model.",
     "C12": "contract not completed yet (in progress)",
     "C14": "A bound on inter-node traffic is a global ranking argument over the dispatcher and the replication loop on several nodes.",
